@@ -57,24 +57,45 @@ theorem alias_anything (mt : Str → Str → Bool) (g : PGraph Str) (S : List Fi
     (hS : dedupSubjects S = S) :
     assertApplies mt { cfg := { subjects := some S, shouldNot := true, importDir := some dir, anything := true }, next := some false } g
       = assertApplies mt (mkRule false false true dir true S S) g := by
-  simp [assertApplies, anythingMisused, convertAliases, mkRule, hS]
+  exact Pta.anything_alias_of_dedup_eq mt g S dir hS
 
-/-- the `anything` alias for EVERY batch of existing names (no de-duplication hypothesis), as verdict class:
-    `S should not import anything` has the verdict of `S should not import modules except S`, on every graph whose
+/-- the `anything` alias for EVERY batch of names (no de-duplication hypothesis; the names need not exist), as verdict
+    class: `S should not import anything` has the verdict of `S should not import modules except S`, on every graph whose
     hierarchy edges cover the dotted nesting of its nodes (`HierClosed`: every graph `buildGraph` constructs, see
-    `Pta.C11.hierClosed_buildGraph`).  The names must exist: see `Pta.C11.anything_dedup_absent_name_witness`. -/
+    `Pta.C11.hierClosed_buildGraph`).  A name that does not exist makes both sides raise a lookup error (since the repair
+    of F-C13b; before it the alias silently dropped an absent dotted extension of another subject, see
+    `Pta.C11.anything_dedup_absent_name_witness`). -/
 theorem alias_anything_verdict (mt : Str → Str → Bool) (g : PGraph Str) (hc : HierClosed g) (S : List Filter) (dir : Bool)
-    (hS : namesOnly S = true) (hn : ∀ f ∈ S, g.hasNode f.id = true) :
+    (hS : namesOnly S = true) :
     verdictOf mt g { cfg := { subjects := some S, shouldNot := true, importDir := some dir, anything := true }, next := some false }
       = verdictOf mt g (mkRule false false true dir true S S) :=
-  Pta.alias_anything_verdict_lemma mt g hc S dir hS hn
+  Pta.alias_anything_verdict_lemma mt g hc S dir hS
 
-/-- what `_convert_aliases` does for every subject list (outcome AND rewritten rule object): the alias is the
-    `except` rule on the de-duplicated subjects -/
+/-- what `_convert_aliases` does for every subject list (outcome AND rewritten rule object): the alias is the `except`
+    rule on the de-duplicated subjects which remembers the subjects it removed (`dropped`; before the repair of F-C13b
+    they were forgotten, i.e. the right-hand side was `mkRule false false true dir true (dedupSubjects S) (dedupSubjects S)`) -/
 theorem alias_anything_dedup (mt : Str → Str → Bool) (g : PGraph Str) (S : List Filter) (dir : Bool) :
     assertApplies mt { cfg := { subjects := some S, shouldNot := true, importDir := some dir, anything := true }, next := some false } g
-      = assertApplies mt (mkRule false false true dir true (dedupSubjects S) (dedupSubjects S)) g :=
-  Pta.anything_alias_dedup mt g S dir
+      = assertApplies mt
+          { cfg := { subjects := some (dedupSubjects S), objects := some (dedupSubjects S), shouldNot := true,
+                     exceptPresent := true, importDir := some dir, dropped := droppedSubjects S }, next := some false } g :=
+  Pta.anything_alias_eq mt g S dir
+
+/-- … and its outcome in terms of the plain `except` rule: a removed subject that is not a module (and not a regex) is a
+    lookup error; otherwise the outcome of `except` rule on the de-duplicated subjects -/
+theorem alias_anything_dedup_verdict (mt : Str → Str → Bool) (g : PGraph Str) (S : List Filter) (dir : Bool) :
+    (assertApplies mt { cfg := { subjects := some S, shouldNot := true, importDir := some dir, anything := true }, next := some false } g).2
+      = if (droppedSubjects S).any (fun f => !f.isRegex && !g.hasNode f.id) = true then .err .lookupError
+        else (assertApplies mt (mkRule false false true dir true (dedupSubjects S) (dedupSubjects S)) g).2 :=
+  Pta.anything_alias_verdict mt g S dir
+
+/-- in particular, when every (non-regex) subject is a module of the architecture, the alias has the outcome of the
+    `except` rule on the de-duplicated subjects -/
+theorem alias_anything_dedup_of_nodes (mt : Str → Str → Bool) (g : PGraph Str) (S : List Filter) (dir : Bool)
+    (hn : ∀ f ∈ S, f.isRegex = false → g.hasNode f.id = true) :
+    (assertApplies mt { cfg := { subjects := some S, shouldNot := true, importDir := some dir, anything := true }, next := some false } g).2
+      = (assertApplies mt (mkRule false false true dir true (dedupSubjects S) (dedupSubjects S)) g).2 :=
+  Pta.anything_alias_dedup_of_nodes mt g S dir hn
 
 /-- monotonicity: a passing `should` rule (with or without `except`) stays passing -/
 theorem monotone_should (mt : Str → Str → Bool) (g : PGraph Str) (u v : Str) (A B : List Filter) (dir exc : Bool)
@@ -106,5 +127,14 @@ example : namesOnly exS2 = true := by decide
 example : ∀ f ∈ exS2, exG2.hasNode f.id = true := by decide
 example : dedupSubjects exS2 = [.name "p".toList] := by decide
 example : verdictOf (fun _ _ => false) exG2 (mkRule false false true true true exS2 exS2) = .fail := by decide
+/-- … and a batch with an absent name that the de-duplication drops: both sides raise the lookup error -/
+def exS3 : List Filter := [.name "p.a".toList, .name "p.a.zz".toList]
+example : namesOnly exS3 = true := by decide
+example : dedupSubjects exS3 = [.name "p.a".toList] := by decide
+example : exG2.hasNode "p.a.zz".toList = false := by decide
+example : verdictOf (fun _ _ => false) exG2 (mkRule false false true true true exS3 exS3) = .err .lookupError := by decide
+example : verdictOf (fun _ _ => false) exG2
+    { cfg := { subjects := some exS3, shouldNot := true, importDir := some true, anything := true }, next := some false } =
+    .err .lookupError := by decide
 
 end Pta.C12
